@@ -34,7 +34,54 @@ func c03Oracle(c *ParseCase) string {
 	st := S("C03")
 	ref := Ref(&RefInput{D: c.D, Args: c.Args})
 	if ref.Undetermined != "" {
-		st.Label("skip: " + ref.Undetermined)
+		// R declines to predict; the model-free part still applies: whatever is
+		// returned must consist of argv tokens, verbatim and in order
+		st.Label("R undetermined (" + ref.Undetermined + "): model-free check only")
+		rr := RunReal(c.D, c.Args, nil, &RealCfg{CmdHandler: c.CmdHandler})
+		if rr.Panic != "" || rr.SetupErr != nil || rr.Err != nil {
+			return ""
+		}
+		var bound []string
+		allString := true
+		for cm, k := &c.D.Root, 0; cm != nil; k++ {
+			if cm.Pos != nil {
+				for _, pa := range cm.Pos.Args {
+					f := rr.B.PosVal[cm.ID+"/"+pa.Field]
+					switch pa.Kind {
+					case KString:
+						if f.String() != "" {
+							bound = append(bound, f.String())
+						}
+					case KStringSlice:
+						bound = append(bound, f.Interface().([]string)...)
+					default:
+						allString = false
+					}
+				}
+			}
+			var next *Cmd
+			chain := rr.B.ActiveChain()
+			if k < len(chain) {
+				for i := range cm.Cmds {
+					if cm.Cmds[i].Name == chain[k] {
+						next = &cm.Cmds[i]
+					}
+				}
+			}
+			cm = next
+		}
+		seq := rr.Rest
+		if allString {
+			seq = append(append([]string{}, bound...), rr.Rest...)
+		}
+		if ok, _ := isSubsequence(seq, c.Args); !ok {
+			return fmt.Sprintf("passed-through tokens %q (positionals then remaining) are not argv tokens in their original order: argv %q", seq, c.Args)
+		}
+		for _, e := range rr.B.ExecLog {
+			if !strSliceEq(e.Args, rr.Rest) {
+				return fmt.Sprintf("Execute received %q but the parser returned %q", e.Args, rr.Rest)
+			}
+		}
 		return ""
 	}
 	rr := RunReal(c.D, c.Args, nil, &RealCfg{CmdHandler: c.CmdHandler})
